@@ -158,3 +158,6 @@ mod tests {
         assert_ne!(&always_list_matcher_2, &never_list_matcher);
     }
 }
+
+#[cfg(kani)]
+pub(crate) mod verif_kani;
